@@ -286,7 +286,7 @@ func verifyFunc(prog *Program, fi *FuncInfo, fc *FuncContract, mode *ModeDef) (r
 	envF := x.contractEnv(fc, fi, sig, recv, args, results, final, x.entry)
 	for _, ef := range fc.Effects {
 		v := x.specValue(ef.Expr, envF)
-		key := x.ghostKey(ef.Var)
+		key := x.effectKey(ef.Var)
 		x.setHeap(final, key, x.coerceGhost(v.V, key, final))
 	}
 	for _, en := range fc.Ensures {
